@@ -26,6 +26,7 @@ REQUIRED_COUNTERS = ["calc_field"]
 CASE_TIMEOUT = 1500
 
 TOL = 1e-6
+SMALL_TOL = {"Mie": 1e-8, "Multisphere": 1e-4}
 
 
 def _gen(rng, tier, i):
@@ -39,7 +40,9 @@ def _gen(rng, tier, i):
     krmax = 150.0 if tier == "quick" else 350.0
     krho = [float(v) for v in np.concatenate([[0.0], loguniform(rng, 0.3, krmax, 9)])]
     phis = [float(v) for v in rng.uniform(0, 2 * math.pi, 10)]
-    return {"m": m, "x": x, "kz": kz, "la": la, "pa": pa, "krho": krho, "phi": phis, "nmed": float(rng.uniform(1.0, 1.5)), "wl": float(rng.uniform(0.4, 0.8))}
+    # "any sphere": a third of the spheres absorb (index n + ik in HoloPy's convention)
+    mi = float(loguniform(rng, 1e-4, 0.5)) if i % 3 == 1 else 0.0
+    return {"m": m, "mi": mi, "x": x, "kz": kz, "la": la, "pa": pa, "krho": krho, "phi": phis, "nmed": float(rng.uniform(1.0, 1.5)), "wl": float(rng.uniform(0.4, 0.8))}
 
 
 def cases(tier, seed):
@@ -59,6 +62,20 @@ def cases(tier, seed):
     for i in range(nz):
         c = _gen(rng, "thorough", i)
         c.update({"id": "interp-%d" % i, "kind": "interp", "window": [30.0, 20.0, 10.0][i % 3], "degree": [32, 40, 48][(i // 3) % 3], "npts_det": [3, 40, 200][i % 3]})
+        out.append(c)
+    # small problems: every listed quadrature order is far beyond the integrand's bandwidth (|kz| <= 25, k*rho <= 15), so each
+    # Lens(theta-order, phi-order) -- deliberately unequal and in both orders -- must already equal the analytic theory
+    nsm = 16 if tier == "quick" else 300
+    for i in range(nsm):
+        c = _gen(rng, tier, i)
+        c["x"] = float(loguniform(rng, 0.3, 8))
+        c["kz"] = float(rng.uniform(-25, 25))
+        c["krho"] = [0.0] + [float(v) for v in rng.uniform(0.2, 15, 5)]
+        c["phi"] = c["phi"][:6]
+        c["orders"] = [[int(rng.integers(60, 90)), int(rng.integers(100, 140))], [int(rng.integers(100, 140)), int(rng.integers(60, 90))],
+                       [int(rng.integers(61, 100)), int(rng.integers(61, 100))]]
+        c["inner"] = "Mie"
+        c.update({"id": "small-%d" % i, "kind": "small", "cost": 8})
         out.append(c)
     for i in range(max(6, nz // 10)):
         c = _gen(rng, "quick", i)
@@ -80,7 +97,8 @@ def _setup(case, krho=None, phi=None):
     phi = np.asarray(case["phi"] if phi is None else phi)
     xs, ys = krho / k * np.cos(phi), krho / k * np.sin(phi)
     det = hp.detector_points(x=xs, y=ys, z=0.0)
-    s = Sphere(n=case["m"] * nmed, r=case["x"] / k, center=(0.0, 0.0, case["kz"] / k))
+    m = complex(case["m"], case["mi"]) if case.get("mi") else case["m"]
+    s = Sphere(n=m * nmed, r=case["x"] / k, center=(0.0, 0.0, case["kz"] / k))
     pol = (math.cos(case["pa"]), math.sin(case["pa"]))
     return det, s, nmed, wl, pol
 
@@ -120,6 +138,39 @@ def _run_agree(case):
     from holopy.scattering.theory import lens as lensmod
     return {"resid": {k: fnum(v) for k, v in resid.items()}, "flags": {}, "fmax": fnum(sc), "numexpr": bool(lensmod.NUMEXPR_INSTALLED),
             "orders": {"mielens": [100, 200, 400], "lens": [[int(nth0 * f), int(nphi0 * f)] for f in (1.0, 1.5, 2.25)]}}
+
+
+def _run_small(case):
+    import warnings
+    from holopy.scattering.theory import MieLens, Lens, Mie, Multisphere
+    det, s, nmed, wl, pol = _setup(case)
+    la = case["la"]
+    ref = _field(det, s, nmed, wl, pol, MieLens(la, calculator_accuracy_kwargs={"quad_npts": 300, "interpolate_integrals": False}))
+    sc = max(float(np.abs(ref).max()), 1e-300)
+    resid = {}
+    inner = Mie() if case["inner"] == "Mie" else Multisphere()
+    for nth, nphi in case["orders"]:
+        with warnings.catch_warnings():
+            warnings.simplefilter("ignore")
+            f = _field(det, s, nmed, wl, pol, Lens(la, inner, quad_npts_theta=nth, quad_npts_phi=nphi))
+        resid["small_%s" % ("theta_lt_phi" if nth < nphi else "theta_gt_phi")] = max(resid.get("small_%s" % ("theta_lt_phi" if nth < nphi else "theta_gt_phi"), 0.0),
+                                                                                    fnum(float(np.abs(f - ref).max()) / sc))
+    # theory objects are re-usable: a second and third calculation with the SAME object (other particle depth, other
+    # polarization, then the first again) give what fresh objects give
+    from holopy.scattering import Sphere
+    nth, nphi = case["orders"][0]
+    with warnings.catch_warnings():
+        warnings.simplefilter("ignore")
+        shared_l, shared_m = Lens(la, Mie(), quad_npts_theta=nth, quad_npts_phi=nphi), MieLens(la)
+        s2 = Sphere(n=s.n, r=s.r, center=(0.0, 0.0, -0.6 * float(s.center[2]) + 0.1))
+        pol2 = (pol[1], -pol[0] + 0.5)
+        worst_l = worst_m = 0.0
+        for (ss, pp) in ((s, pol), (s2, pol2), (s, pol)):
+            worst_l = max(worst_l, float(np.abs(_field(det, ss, nmed, wl, pp, shared_l) - _field(det, ss, nmed, wl, pp, Lens(la, Mie(), quad_npts_theta=nth, quad_npts_phi=nphi))).max()) / sc)
+            worst_m = max(worst_m, float(np.abs(_field(det, ss, nmed, wl, pp, shared_m) - _field(det, ss, nmed, wl, pp, MieLens(la))).max()) / sc)
+    resid["reused_lens_object"] = fnum(worst_l)
+    resid["reused_mielens_object"] = fnum(worst_m)
+    return {"resid": resid, "flags": {}, "fmax": fnum(sc)}
 
 
 def _run_zero_ab(case):
@@ -177,7 +228,7 @@ def _run_cutoff(case):
 def judge(case, obs):
     out = []
     r = obs["resid"]
-    desc = {k: case[k] for k in ("m", "x", "kz", "la", "pa") if k in case}
+    desc = {k: case[k] for k in ("m", "mi", "x", "kz", "la", "pa") if k in case}
     if case["kind"] == "agree":
         desc["orders"] = obs.get("orders")
         m_conv = r["mielens_12"] <= TOL
@@ -194,9 +245,10 @@ def judge(case, obs):
             out.append({"mech": "interp.check", "detail": "default MieLens vs direct evaluation %.3e; %s" % (r["default_vs_direct"], desc)})
         return out
     for k, v in r.items():
-        tol = {"zero_aberration": 1e-13, "interp_check": 1e-8, "interp_on": 1e-8, "interp_on_custom": 1e-8}[k]
+        tol = {"zero_aberration": 1e-13, "interp_check": 1e-8, "interp_on": 1e-8, "interp_on_custom": 1e-8,
+               "reused_lens_object": 0.0, "reused_mielens_object": 0.0, "small_theta_lt_phi": SMALL_TOL[case.get("inner", "Mie")], "small_theta_gt_phi": SMALL_TOL[case.get("inner", "Mie")]}[k]
         if not v <= tol:
-            out.append({"mech": "%s.%s" % (case["kind"], k), "detail": "%s=%.3e > %.0e; %s %s" % (k, v, tol, desc, {x: case[x] for x in case if x in ("sa", "opts", "window", "degree", "npts_det")})})
+            out.append({"mech": "%s.%s" % (case["kind"], k), "detail": "%s=%.3e > %.0e; %s %s" % (k, v, tol, desc, {x: case[x] for x in case if x in ("sa", "opts", "window", "degree", "npts_det", "orders", "inner")})})
     for k, v in obs["flags"].items():
         if not v:
             out.append({"mech": "%s.%s" % (case["kind"], k), "detail": "%s" % desc})
